@@ -628,3 +628,63 @@ extend('C19', 'Round 6: the request typestate follows the identity of the '
        'only pool clients settle requests.')
 extend('C20', 'Round 6: a cloned policy keeps the 78-byte refolding '
        'threshold; nothing branches on the identity of a policy object.')
+
+# rules added in round 7 (DESIGN.md §4 fourth table, §10 Round 7)
+extend('C01', 'Round 7: the scheduler clock is time.time() (= Q11); the '
+       'default bounce factory always makes a bounce; relay greenlets are '
+       'killed only from kill().')
+extend('C02', 'Round 7: _pool_imap reads `.value` / `.exception` only off '
+       'finished greenlets (unbounded join / positive ready test / '
+       'blocking kill); RelayPool.attempt returns AsyncResult.get() '
+       '(= N10).', 'typestate on greenlet completion')
+extend('C03', 'Round 7: only TransientRelayError results are filed for '
+       'another attempt - by class, tests of the reply\'s content are not '
+       'guards (= R1.7); storage classes share no state, __init__ must '
+       'bind the attribute on every path (= I17); the timetable is also '
+       'not written through a local alias.')
+extend('C04', 'Round 7: timetable writers incl. aliases (= R3.2: the '
+       'start-up load goes through _add_queued); index space of the disk '
+       'backend\'s delivered marks (= R3.4, known finding).')
+extend('C05', 'Round 7: a line recv_line hands out has left recv_buffer '
+       '(= G11); DataSender applies no rewriting operation to the content; '
+       'dot removal and end-of-data test run for every finished line under '
+       'no extra condition.')
+extend('C06', 'Round 7: the receiving side un-stuffs every finished line '
+       '(= R5.16); flatten() keeps no memo; every Content-Type the HTTP '
+       'relay can write is accepted by the edge.')
+extend('C07', 'Round 7: server-initiated hooks defined by a session class '
+       'of the package cannot be spelled as a client verb; callbacks get a '
+       'reply made for this command, never a canned module-level object.')
+extend('C08', 'Round 7: no session handler rebinds its `reply` parameter; '
+       'recv_line hands back whole lines only (= R7.15).')
+extend('C09', 'Round 7: recv_line takes the line off recv_buffer; the '
+       'receive path applies no rewriting operation per read; EOD / cursor '
+       '/ line table are written by their owners under their conditions '
+       'only (= R5.6).')
+extend('C10', 'Round 7: one raw_recv per buffered_recv; LmtpClient.rcpttos '
+       'is reset only by the enumerated resetters.')
+extend('C11', 'Round 7: reply.command decoded only behind a type test '
+       '(D34); no greenlet `.value` collected after a kill in the same '
+       'function.')
+extend('C13', 'Round 7: the default bounce factory always makes a bounce; '
+       'settled positions named in the envelope at hand (= R3.6); no '
+       'strict text conversion raises out of Bounce().',
+       'escape analysis with a library raise table')
+extend('C14', 'Round 7: blocking primitives of the relay modules are '
+       'gevent\'s (no stdlib socket / sleep / subprocess call); no while '
+       'loop re-arms a timeout for the same request; send-side primitives '
+       '(sendall) of relay attempts are under a timeout as well.')
+extend('C15', 'Round 7: a class-level counter is not updated through self '
+       'in a class that keeps class-level state; records are deleted by '
+       'remove() only (= R1.14).')
+extend('C16', 'Round 7: Forward.mapping is only appended to; no policy '
+       'touches Message._headers.')
+extend('C17', 'Round 7: send_reply adds one wire line per text line; the '
+       'message getter takes the ESC from the property.')
+extend('C18', 'Round 7: struct formats with multi-byte numbers carry a '
+       'byte-order mark.')
+extend('C19', 'Round 7: _add_client is never deferred (spawn_later / '
+       'callback); an HTTP client that goes on after a failed exchange has '
+       'dropped its connection.')
+extend('C20', 'Round 7: flatten() writes headers with the BytesGenerator '
+       'on every path; the header block is parsed with headersonly.')
